@@ -53,7 +53,7 @@ Streams added for anchored code the quick tier never executed (coverage/C08.json
   are sub-sequences of the model's (the model sees the graph with the left-out attributes overwritten by a
   constant); faithfulness by `spec.isRelabelling`, invariance by `spec.covEq` on the projections, kernel agreement
   of `graph_signature` by the proven engine on the configured keys; max_depth against the leaf depths of the
-  model's search tree.  The automorphism / orbit lists themselves are outside the property (recorded only);
+  model's search tree and, for every depth, exactly against the depth-capped model (`canon.irCapped`).  The automorphism / orbit lists themselves are outside the property (recorded only);
 * `stream_classes` — nx.DiGraph / nx.MultiGraph / nx.MultiDiGraph inputs (class docstring: the class of the input is
   preserved): relabelling predicate evaluated in the harness (the Lean model has simple undirected graphs only),
   isomorphism decided by the proven engine on an edge-subdivision encoding;
@@ -107,6 +107,10 @@ THEOREMS = [
     "SynKit.Canon.canonIR_covEq",
     "SynKit.Canon.valueobject_ir_iff",
     "SynKit.Canon.fullStatement_ir",
+    "SynKit.Canon.irDepth_spec",
+    "SynKit.Canon.irCapped_full",
+    "SynKit.Canon.irCapped_flag_sound",
+    "SynKit.Canon.irCapped_partial_is_leaf",
 ]
 
 BACKENDS = ["generic", "wl", "morgan", "nauty"]
@@ -2492,15 +2496,34 @@ def direct_aut_record(ctx, g, cfg, perm, mapping, fl, r):
         ctx.count("direct:recorded:orbits_partition_nodes" if full else "direct:recorded:orbits_NOT_a_partition")
 
 
+def label_strings(nz, g):
+    """Python's own renderings of the label items of `g` under the search object `nz`, read off with the expressions
+    of `_build_label` itself (`str` of the frozen value, fields joined by ':'): one string per node, one per edge, and
+    the rendering of an absent edge.  The model is parametric in the label order; with this table the driver runs it
+    under Python's order of the rendered label strings (numbers cross the protocol in half-units, so `str` cannot be
+    re-done on the Lean side)."""
+    fz = nz._freeze
+    return {"nodes": [[int(v), ":".join(str(fz(g.nodes[v].get(a, ""))) for a in nz.node_attrs)] for v in g.nodes],
+            "edges": [[int(u), int(v), ":".join(str(x) for x in tuple(fz(d.get(a, "")) for a in nz.edge_attrs))] for u, v, d in g.edges(data=True)],
+            "zero": "0:" + ":".join("" for _ in nz.edge_attrs)}
+
+
 def direct_depths(ctx, batch, nz, g, gt, cfg, perm, cg_norm, rep, case, classes, stream, depths=None):
+    """`max_depth`.  Kept gates (from the depths of the model's leaf list): max_depth >= deepest leaf ⇒ the answer of
+    the unlimited search with early_stop False; an answer with early_stop False is that answer; every returned graph
+    is a relabelling.  Exact gate (`canon.irCapped`, the depth-capped model `irSearchCapped` of SynKitModel/NautyIR.lean,
+    run under Python's order of the label strings): for EVERY max_depth — below the first leaf, in between, above the
+    deepest — the RuntimeError, the early_stop flag and the permutation are the model's."""
     ds = [len(l["prefix"]) for l in rep["leaves"]]
     if not ds:
         return
     d1, D = ds[0], max(ds)
     ctx.count(f"direct:depth:first_leaf={d1}:deepest={D}")
     n = g.number_of_nodes()
+    seen = {}
     for k in sorted({max(d1 - 1, 0), d1, max(D - 1, 0), D, D + 1} | set(depths or ())):
         r = direct_form(nz, gt, return_perm=True, max_depth=k)
+        seen[k] = r
         zone = "below_first_leaf" if k < d1 else ("complete" if k >= D else "between")
         outcome = "error:" + r["error"] if "error" in r else ("bad_shape" if not r["shape_ok"] else ("early" if r["early"] else "full"))
         ctx.count(f"direct:max_depth:{zone}:{outcome}")
@@ -2531,6 +2554,43 @@ def direct_depths(ctx, batch, nz, g, gt, cfg, perm, cg_norm, rep, case, classes,
                 if rep2 != "ok":
                     ctx.violation("canonical graph is not the input relabelled by a bijection onto 1..N with all attributes preserved", dcase, dict(det, **{"spec.isRelabelling": rep2}), classes=classes)
             batch.add({"cmd": "spec.isRelabelling", "graph": dump(gt), "canon": dump(r["graph"]), "mapping": [[int(v), pk.index(v) + 1] for v in gt.nodes]}, on_spec)
+    # the exact gate: the depth-capped model, under Python's order of the label strings
+    try:
+        strings = label_strings(nz, g)
+        py_labels = [nz._build_label(g, list(l["prefix"]) + list(l["order"])) for l in rep["leaves"]]
+    except Exception as e:  # noqa: BLE001 - the renderings are read off the implementation's own expressions
+        ctx.count(f"direct:max_depth:exact_gate_skipped:renderings_raise:{type(e).__name__}")
+        return
+    genc = dump(project(g, cfg))
+    state = {"usable": None}
+    for i, k in enumerate(sorted(seen)):
+        def on_capped(m, k=k, first=(i == 0)):
+            if first:  # is the model, run under the order of the rendered strings, the implementation's search on this graph?
+                why = None
+                if not m.get("table_ok"):
+                    why = "equal_items_rendered_differently"
+                elif m.get("leaf_strings") != py_labels:
+                    why = "rendered_labels_differ_from_build_label"
+                elif m.get("full_order") != [int(v) for v in perm]:
+                    why = "unlimited_model_search_other_leaf"
+                state["usable"] = why is None
+                ctx.count("direct:max_depth:exact_gate:" + ("usable" if why is None else "skipped:" + why))
+            if not state["usable"] or direct_reports(ctx) >= DIRECT_MAX_REPORTS:
+                return
+            r = seen[k]
+            zone = "below_first_leaf" if k < d1 else ("complete" if k >= D else "between")
+            impl = {"error": r.get("error"), "early_stop": None if "error" in r else r.get("early"), "order": None if "error" in r or not r.get("shape_ok") else [int(v) for v in r["perm"]]}
+            want = {"error": m["error"], "early_stop": None if m["error"] else m["early_stop"], "order": None if m["error"] else m["order"]}
+            ok = impl == want
+            ctx.count(f"direct:max_depth:exact:{zone}:" + ("error" if m["error"] else "early" if m["early_stop"] else "full") + (":agree" if ok else ":DIFFER"))
+            if not ok:
+                ctx.violation("exact search used directly: canonical_form(max_depth=k) is not the search cut at the first call deeper than k (RuntimeError / early_stop / permutation differ from the depth-capped model)",
+                              dict(case, max_depth=k), {"stream": stream, "max_depth": k, "first_leaf_depth": d1, "deepest_leaf_depth": D, "zone": zone, "impl": impl, "model": want},
+                              classes=classes)
+        req = {"cmd": "canon.irCapped", "graph": genc, "max_depth": int(k), "strings": strings}
+        if i == 0:
+            req["ranks"] = True
+        batch.add(req, on_capped)
 
 
 def direct_configs(rnd):
@@ -2907,8 +2967,11 @@ def run(ctx):
         "isomorphism is decided by the proven engine on an encoding (one extra node per undirected edge, two per arc, carrying the edge's covered attributes); no self-loops",
         "NautyCanonicalizer used directly (stream direct): attribute lists are sub-sequences of the model's lists (or the constructor default None); the model runs on the "
         "graph with the left-out attributes overwritten by constants; what max_depth must return is derived from the leaf depths of the model's unpruned search tree only "
-        "(max_depth >= deepest leaf: the full answer; an answer flagged early_stop=False: the full answer; any returned graph: a relabelling) — which of the in-between "
-        "depths stop early depends on pruning and is recorded, not gated; the content of the automorphism / orbit lists is outside the property (recorded, not gated)",
+        "(max_depth >= deepest leaf: the full answer; an answer flagged early_stop=False: the full answer; any returned graph: a relabelling); moreover EVERY max_depth "
+        "(below the first leaf, in between, above the deepest) is gated exactly — RuntimeError, early_stop, permutation — against the depth-capped model irSearchCapped "
+        "(driver command canon.irCapped; theorems irCapped_full / irCapped_flag_sound / irCapped_partial_is_leaf hold for every label order), which the driver runs under Python's own "
+        "order of the rendered label strings: the harness hands it str() of every node / edge label item (read off _build_label's expressions) and uses the gate only when the "
+        "model's rendered leaf labels are literally the strings _build_label returns for those leaves and the unlimited model search picks the implementation's permutation; the content of the automorphism / orbit lists is outside the property (recorded, not gated)",
         "GraphCanonicaliser(backend='nauty', node_attrs=[]) is compared as an exact back-end only together with a node sort key that covers no node attribute",
         "standard_order is absent or a function of order, as in every graph SynKit builds (the other case is the classified stream std-independent)",
         "graphs that are compared with each other write a value the same way (int 0 vs float 0.0 print differently in the serialised text: pools and near "
